@@ -193,9 +193,10 @@ def binop(ip, op, a, b, inplace=False):
 def py_eq(ip, a, b):
     """python ==  -> bool or z3 Bool"""
     c = ip.c
-    if isinstance(a, Sym) and a.t.sort() == Val and (a.ty or "").startswith("opt:"):
+    # optional containers must be told apart from None before a structural comparison; optional scalars compare as Vals
+    if isinstance(a, Sym) and a.t.sort() == Val and (a.ty or "").startswith(("opt:dict", "opt:list")):
         a = ip.resolve(a)
-    if isinstance(b, Sym) and b.t.sort() == Val and (b.ty or "").startswith("opt:"):
+    if isinstance(b, Sym) and b.t.sort() == Val and (b.ty or "").startswith(("opt:dict", "opt:list")):
         b = ip.resolve(b)
     if not isinstance(a, Sym) and not isinstance(b, Sym):
         if isinstance(a, PList) or isinstance(b, PList):
